@@ -2,7 +2,7 @@
 # run from a vp snapshot: builds the checker there and runs the thorough tier of every property
 export GOFLAGS=-mod=mod GOPROXY=off
 (cd engine && go build -o ../bin/check ./cmd/check) || exit 2
-for p in C20 C16 C14 C19 C13 C17 C18 C06 C12 C11 C01 C03 C04 C02 C10 C15 C09 C08 C05 C07; do
+for p in ${THOROUGH_PROPS:-C20 C16 C14 C19 C13 C17 C18 C06 C12 C11 C01 C03 C04 C02 C10 C15 C09 C08 C05 C07}; do
   s=$(date +%s)
   VERIF_DIR=$PWD ./bin/check $p --tier thorough > thorough_$p.log 2>&1
   echo "$p exit=$? $(( $(date +%s)-s ))s $(grep -E '^property=' thorough_$p.log)" 
